@@ -810,6 +810,6 @@ func init() {
 		Cases:      c15Cases,
 		Run:        c15Run,
 		Needs:      []string{"buf", "plugins"},
-		Required:   []string{"faults_fired", "disk_fault_runs", "real_failure_runs", "kill_runs", "reader_observations", "limit_runs", "post_kill_followup_puts", "sys_faults_fired", "sys_atomic_rename_failures", "sys_success_outputs_compared"},
+		Required:   []string{"faults_fired", "disk_fault_runs", "real_failure_runs", "kill_runs", "reader_observations", "limit_runs", "post_kill_followup_puts", "kill_cases_through_mapped_view", "sys_faults_fired", "sys_atomic_rename_failures", "sys_success_outputs_compared"},
 	})
 }
